@@ -137,7 +137,7 @@ PROPS['C04'] = {
     'parts': [engine_part('caller-panic-enumeration', 'e_fault', 'C04', shards_quick=4, asan='thorough')],
     'rule': ("for every operation x receiver/argument form (generate x4 + default x2; map x4; fold x4; zip 9 stack forms + boxed; Clone of array, Box and of the by-value iterator from every (origin, front, back); "
              "iterator fold/rfold/for_each/map-collect from every position; try_from_iter/from_iter/try_boxed_from_iter/boxed from_iter from a scripted source of c in {0,N-1,N,N+1,N+2} items with exact/absent hints, and from real "
-             "into_iter().map chains; ArrayBuilder/IntrusiveArrayBuilder/ArrayConsumer dropped at every position and fed by extend) x N in {0..9,16,17,33} (iterator positions N<=8 and 16) x element-type "
+             "into_iter().map chains; ArrayBuilder/IntrusiveArrayBuilder/ArrayConsumer dropped at every position and fed by extend) x N in {0..9,16,17,33} (iterator positions N<=8 and 16), and N in {100, 1000} for a reduced scenario list with the fault-index lattice {first, last, quartiles, both sides of every power of two}, x element-type "
              "combinations over {4-byte tracked, 24-byte tracked, zero-sized tracked, plain u32} selecting the needs_drop branches: one fault-free run counts the fault points c, then one execution per k in 0..c with call k panicking. "
              "A case is one (operation, form, N, types, k); non-trivial = the fault fired and at least one element existed. Oracle: the injected payload propagates, nothing is returned, borrowed sources are intact and live, and after dropping "
              "the survivors every tracked id has exactly one drop, none observed after drop; zero-sized totals balance."),
@@ -156,7 +156,7 @@ PROPS['C05'] = {
     'rule': ("for every (origin fresh|clone, front f, back b) of the by-value iterator with N in 0..=8 complete and 16 on the position lattice x operation in {nth(n), nth_back(n) for n in 0..=len+1, count, last, drop, "
              "fold/rfold/for_each with a dropping closure, clone-then-drop, collect-then-drop}; dropping a GenericArray / Box / fresh iterator / boxed into_iter; ArrayBuilder, IntrusiveArrayBuilder and ArrayConsumer dropped at every position; the "
              "error paths of try_from_iter, from_iter, try_boxed_from_iter, boxed from_iter, TryFrom<Vec>, try_from_vec, try_from_boxed_slice, TryFrom<Box<[T]>> for c in {0,1,N-1,N,N+1,N+2}; map/zip/fold (owned and boxed) with closures that drop "
-             "their arguments, N in {0..9,16,17,33}; the deserialisation error paths (scripted source offering c in 0..=N+2 elements, an element error at every index, N in {0..6,8,16}); a fault-free run lists the elements destroyed after the arming point, then one execution per such element with its destructor panicking once (never while already panicking). "
+             "their arguments, N in {0..9,16,17,33}, and N in {100, 1000} on position / skip / panicking-element lattices; the deserialisation error paths (scripted source offering c in 0..=N+2 elements, an element error at every index, N in {0..6,8,16}); a fault-free run lists the elements destroyed after the arming point, then one execution per such element with its destructor panicking once (never while already panicking). "
              "After the caught panic the views are observed, next/next_back called once more and everything dropped. A case is one (operation, position, N, element type, panicking element); non-trivial = the destructor panicked inside the operation. "
              "Oracle: no id dropped twice, none observed after its drop, zero-sized drops never exceed creations; leaks are counted, not flagged."),
     'exhaustive': True,
@@ -236,7 +236,7 @@ PROPS['C07'] = {
     'level': 'fault_enumeration',
     'technique': 'exhaustive enumeration of the environment of a collecting call: scripted source (item count x size-hint policy x fusedness x panic at every next() call) against all four collecting entry points on the real code',
     'parts': [engine_part('scripted-source', 'e_ops', 'C07', shards_quick=4)],
-    'rule': ("N in {0..8,16,17,33,100} x produced item count c in 0..=N+3 x size-hint policy in {exact, absent, lower-only, upper-only, loose both, lying low (upper < c), lying high (lower > c), changing between calls} x "
+    'rule': ("N in {0..8,16,17,33,100} x produced item count c in 0..=N+3 (and N = 1000 on a count / panic-index lattice) x size-hint policy in {exact, absent, lower-only, upper-only, loose both, lying low (upper < c), lying high (lower > c), changing between calls} x "
              "fused / not fused (a non-fused source yields again if polled after its first None, and counts such polls) x entry point in {try_from_iter, from_iter, try_boxed_from_iter, boxed from_iter} x element in {tracked, zero-sized tracked, u32}; "
              "for each, the fault-free run and one run per next() call index with that call panicking (all policies for N<=5, exact/absent/lying-high otherwise). Oracle: Ok implies c == N and element i is the i-th produced item; c == N with a truthful "
              "hint implies Ok; otherwise LengthError or the 'expected N items' panic; at most N+1 next() calls; zero polls after the source returned None; every produced item dropped exactly once; an injected source panic propagates. "
@@ -249,7 +249,7 @@ PROPS['C08'] = {
     'level': 'exploration',
     'technique': 'bounded exhaustive enumeration of (operation, receiver/argument form, element-type combination, N) with recording closures on the real code',
     'parts': [engine_part('call-order', 'e_ops', 'C08', shards_quick=1)],
-    'rule': ("N in {0..8,16,17,33,64,100} x {generate x4 forms (array, &, &mut, Box), map x4, fold x4, zip: nine stack receiver x argument forms + boxed x boxed, Clone (array, Box), Default, default_boxed} x element-type combinations over "
+    'rule': ("N in {0..8,16,17,33,64,100,128,1000} x {generate x4 forms (array, &, &mut, Box), map x4, fold x4, zip: nine stack receiver x argument forms + boxed x boxed, Clone (array, Box), Default, default_boxed} x element-type combinations over "
              "{tracked 4/8/24-byte, zero-sized tracked, plain u32} (selecting the drop-aware and no-drop code paths). Closures log every call with its arguments. Oracle: the log is exactly (a[0]) (a[1]) ... once each ascending - for zip the pair "
              "(a[i], b[i]) in that argument order, for fold a non-commutative accumulator threaded left to right - result element i is what call i returned, Clone/Default are called N times in index order, and nothing is left alive or dropped twice. "
              "Non-trivial = N > 0."),
@@ -286,7 +286,7 @@ PROPS['C17'] = {
     'level': 'fault_enumeration',
     'technique': 'exhaustive enumeration of the deserialisation environment: scripted Deserializer/SeqAccess (delivered count x up-front hint x later hints x element error at every index) plus real formats (JSON text, bincode, serde_json::Value) and a recording Serializer, on the real code',
     'parts': [engine_part('serde', 'e_misc', 'C17', shards_quick=1)],
-    'rule': ("N in {0..8,16,33}. Scripted source: delivered element count c in 0..=N+2 x up-front size hint in {none, exact, too small (N-1), too large (N+1), 'N' regardless of what is delivered} x later hints in {truthful remaining, none} x "
+    'rule': ("N in {0..8,16,33} (and 100 on a count / error-index lattice). Scripted source: delivered element count c in 0..=N+2 x up-front size hint in {none, exact, too small (N-1), too large (N+1), 'N' regardless of what is delivered} x later hints in {truthful remaining, none} x "
              "(no error | element k fails to parse, for every k < c), element type drop-tracked. Oracle: deserialize asks for a tuple of exactly N; Ok iff c == N and no element < N failed (hint none/exact/N), and then element i is the i-th element read; "
              "c != N or a failing element < min(N, c) must be an error; every element read is dropped exactly once afterwards; the sequence is never polled after it reported its end. The documented exclusion (a source reporting 'nothing left' while "
              "holding elements: only N = 0 with an up-front hint of 0) is not generated. Real formats per N: JSON text equals the N-element list, bincode equals the bare concatenation of the element encodings (a byte array is exactly its bytes), "
